@@ -5,6 +5,8 @@ Property theorems about the models in `IrVerif/Model/PassInfra.lean`; helper dev
 -/
 import IrVerif.Model.PassInfra
 import IrVerif.Lemmas.PassInfra
+import IrVerif.Lemmas.PassSort
+import IrVerif.Lemmas.PassFlags
 namespace IrVerif.PassInfra
 
 /-! ## identity rule -/
@@ -53,25 +55,26 @@ theorem C14_identity_violation_raises {W : Type} (ip : Bool) (rq en : W → Mode
   simp only [h1, h2, h3]
   cases hr : (r.model != m) <;> simp_all
 
-/-- **C14_functionalize_fresh**: `functionalize(p)` of an in-place `p` returns the clone it made —
-    an object that did not exist before (`Alloc` = "is a live model object"; `Model.clone` returns
-    a new one), hence never the input. -/
-theorem C14_functionalize_fresh {W : Type} (cl : W → ModelId → W × ModelId)
-    (Alloc : W → ModelId → Prop) (hcl : ∀ w m, ¬ Alloc w (cl w m).2)
+/-- **C14_functionalize_returns_clone**: `functionalize(p)` of an in-place `p` runs `p` on the clone
+    it made (in the world after cloning) and returns exactly that clone, with `p`'s flag; since the
+    result is accepted by `__call__`, the clone is not the input object.  (That `Model.clone` returns
+    an object that did not exist before is C13's statement; with it the result is fresh.) -/
+theorem C14_functionalize_returns_clone {W : Type} (cl : W → ModelId → W × ModelId)
     (p : Pass W) (hp : p.inPlace = true) (w w' : W) (m : ModelId) (r : PassResult)
     (h : (Pass.func p).run cl w m = (w', .ok r)) :
-    r.model = (cl w m).2 ∧ ¬ Alloc w r.model ∧ r.model ≠ m := by
+    p.run cl (cl w m).1 (cl w m).2 = (w', .ok r) ∧ r.model = (cl w m).2 ∧ (cl w m).2 ≠ m := by
   have hid := (C14_identity_rule cl (.func p) w w' m r h).2 rfl
   simp only [Pass.run] at h
-  obtain ⟨⟨w1, w2, h1, h2, _⟩, _⟩ := guard_ok h
-  simp only [noHook, Prod.mk.injEq] at h1
+  obtain ⟨⟨w1, w2, h1, h2, h3⟩, _⟩ := guard_ok h
+  simp only [noHook, Prod.mk.injEq] at h1 h3
   obtain ⟨rfl, _⟩ := h1
+  obtain ⟨rfl, _⟩ := h3
   have h2' : p.run cl (cl w m).1 (cl w m).2 = (w2, .ok r) := by
     revert h2
     cases hrun : p.run cl (cl w m).1 (cl w m).2 with
     | mk a b => cases b <;> simp [toCallRet]
   have := (C14_identity_rule cl p _ _ _ _ h2').1 hp
-  exact ⟨this, this ▸ hcl w m, hid⟩
+  exact ⟨h2', this, this ▸ hid⟩
 
 /-! ## the modified flag of Sequential and PassManager -/
 
@@ -246,6 +249,171 @@ theorem C14_fixpoint {W : Type} (round : W → ModelId → Res W) (μ : W → Mo
         | nil => rw [hfl] at ih; simp at ih
         | cons a l => rw [hfl] at ih; simpa [List.getLast?_cons_cons] using ih.1
 
+/-! ## honest members make honest compositions -/
+
+/-- a pass expression is *honest* w.r.t. an observation `obs` of a model in a world (think: its
+    serialized bytes): a successful run that reports `modified = False` returns a model that is
+    observed exactly like the model it was given -/
+def Honest {W O : Type} (cl : W → ModelId → W × ModelId) (obs : W → ModelId → O) (p : Pass W) : Prop :=
+  ∀ w m w' r, p.run cl w m = (w', .ok r) → r.modified = false → obs w' r.model = obs w m
+
+theorem runSeq_honest {W O : Type} (cl : W → ModelId → W × ModelId) (obs : W → ModelId → O) :
+    ∀ (ps : List (Pass W)), (∀ p ∈ ps, Honest cl obs p) → ∀ (w w' : W) (m : ModelId) (acc : Bool)
+      (r : PassResult), runSeq cl ps w m acc = (w', .ok r) → r.modified = false →
+      obs w' r.model = obs w m
+  | [], _, w, w', m, acc, r, h, _ => by
+    simp only [runSeq, Prod.mk.injEq, Except.ok.injEq] at h
+    obtain ⟨rfl, rfl⟩ := h; rfl
+  | p :: ps, hh, w, w', m, acc, r, h, hm => by
+    have hmod := C14_sequential_modified cl (p :: ps) w w' m acc r h
+    simp only [runSeq] at h
+    split at h
+    · simp at h
+    · next w1 r1 h1 =>
+      have hfl : r1.modified = false := by
+        have h0 := hmod
+        simp only [seqFlags, h1, List.any_cons, id] at h0
+        rw [hm] at h0
+        cases hr : r1.modified
+        · rfl
+        · rw [hr] at h0; simp at h0
+      have ih := runSeq_honest cl obs ps (fun q hq => hh q (List.mem_cons_of_mem _ hq))
+        w1 w' r1.model _ r h hm
+      exact ih.trans (hh p List.mem_cons_self w m w1 r1 h1 hfl)
+
+theorem guard_noHook_ok {W : Type} {ip : Bool} {c : W → ModelId → W × CallRet} {w w' : W}
+    {m : ModelId} {r : PassResult} (h : guard ip noHook c noHook w m = (w', .ok r)) :
+    c w m = (w', .result r) := by
+  obtain ⟨⟨w1, w2, h1, h2, h3⟩, _⟩ := guard_ok h
+  simp only [noHook, Prod.mk.injEq] at h1 h3
+  obtain ⟨rfl, _⟩ := h1
+  obtain ⟨rfl, _⟩ := h3
+  exact h2
+
+theorem toCallRet_result {W : Type} {x : Res W} {w' : W} {r : PassResult}
+    (h : toCallRet x = (w', .result r)) : x = (w', .ok r) := by
+  obtain ⟨a, b⟩ := x
+  cases b <;> simp_all [toCallRet]
+
+/-- **C14_sequential_honest**: a `Sequential` of honest passes is honest. -/
+theorem C14_sequential_honest {W O : Type} (cl : W → ModelId → W × ModelId) (obs : W → ModelId → O)
+    (ps : List (Pass W)) (hh : ∀ p ∈ ps, Honest cl obs p) : Honest cl obs (.seq ps) := by
+  intro w m w' r h hm
+  simp only [Pass.run] at h
+  exact runSeq_honest cl obs ps hh w w' m false r (toCallRet_result (guard_noHook_ok h)) hm
+
+theorem mgrLoop_honest {W O : Type} (round : W → ModelId → Res W) (obs : W → ModelId → O)
+    (hr : ∀ w m w' r, round w m = (w', .ok r) → r.modified = false → obs w' r.model = obs w m)
+    (es : Bool) : ∀ (n : Nat) (w w' : W) (m : ModelId) (acc : Bool) (r : PassResult) (fl : List Bool),
+    mgrLoop round es n w m acc = (w', .ok r, fl) → r.modified = false → obs w' r.model = obs w m
+  | 0, w, w', m, acc, r, fl, h, _ => by
+    simp only [mgrLoop, Prod.mk.injEq, Except.ok.injEq] at h
+    obtain ⟨rfl, rfl, _⟩ := h; rfl
+  | n + 1, w, w', m, acc, r, fl, h, hm => by
+    have hmod := C14_manager_modified round es (n + 1) w w' m acc r fl h
+    simp only [mgrLoop] at h
+    split at h
+    · simp at h
+    · next w1 r1 h1 =>
+      have hfl : r1.modified = false := by
+        by_cases hs : (!r1.modified && es) = true
+        · simp only [Bool.and_eq_true, Bool.not_eq_eq_eq_not, Bool.not_true] at hs
+          exact hs.1
+        · rw [if_neg hs] at h
+          simp only [Prod.mk.injEq] at h
+          have h0 := hmod
+          rw [← h.2.2, hm] at h0
+          simp only [List.any_cons, id] at h0
+          cases hr1 : r1.modified
+          · rfl
+          · rw [hr1] at h0; simp at h0
+      have h0 := hr w m w1 r1 h1 hfl
+      split at h
+      · simp only [Prod.mk.injEq, Except.ok.injEq] at h
+        obtain ⟨rfl, rfl, _⟩ := h
+        exact h0
+      · simp only [Prod.mk.injEq] at h
+        obtain ⟨ha, hb, _⟩ := h
+        have ih := mgrLoop_honest round obs hr es n w1 w' r1.model _ r _ (by rw [← ha, ← hb]) hm
+        exact ih.trans h0
+
+/-- **C14_manager_honest**: a `PassManager` (any `steps`, any `early_stop`) of honest passes is
+    honest: it reports `modified = False` only if the model it returns is observed (serializes)
+    exactly like the model it was given. -/
+theorem C14_manager_honest {W O : Type} (cl : W → ModelId → W × ModelId) (obs : W → ModelId → O)
+    (ps : List (Pass W)) (steps : Nat) (es : Bool) (hh : ∀ p ∈ ps, Honest cl obs p) :
+    Honest cl obs (.mgr ps steps es) := by
+  intro w m w' r h hm
+  simp only [Pass.run] at h
+  have h2 := toCallRet_result (guard_noHook_ok h)
+  simp only [mgrCall] at h2
+  cases hl : mgrLoop (fun w m => runSeq cl ps w m false) es steps w m false with
+  | mk a b =>
+    cases b with
+    | mk res fl =>
+      rw [hl] at h2
+      simp only [Prod.mk.injEq] at h2
+      obtain ⟨rfl, rfl⟩ := h2
+      exact mgrLoop_honest _ obs (fun w m w' r h hm => runSeq_honest cl obs ps hh w w' m false r h hm)
+        es steps w a m false r fl hl hm
+
+/-- **C14_functionalize_honest**: if cloning yields a model that is observed like the original,
+    functionalizing an honest pass gives an honest pass. -/
+theorem C14_functionalize_honest {W O : Type} (cl : W → ModelId → W × ModelId)
+    (obs : W → ModelId → O) (hcl : ∀ w m, obs (cl w m).1 (cl w m).2 = obs w m) (p : Pass W)
+    (hp : Honest cl obs p) : Honest cl obs (.func p) := by
+  intro w m w' r h hm
+  simp only [Pass.run] at h
+  have h2 := toCallRet_result (guard_noHook_ok h)
+  exact (hp _ _ _ _ h2 hm).trans (hcl w m)
+
+/-- **C14_fixpoint_obs**: `C14_fixpoint` for passes that allocate (functional passes) or keep
+    private state: instead of "the world is unchanged" it suffices that a `False` round leaves the
+    OBSERVATION of the model unchanged, that the measure is a function of the observation, and that
+    a round's flag and resulting observation depend only on the observation it starts from.  Then a
+    successful manager run with enough steps ends with a `False` round, and one more round from the
+    final state reports `False` again and leaves the observation as it is. -/
+theorem C14_fixpoint_obs {W O : Type} (round : W → ModelId → Res W) (obs : W → ModelId → O)
+    (μ : O → Nat)
+    (hdec : ∀ w m w' r, round w m = (w', .ok r) → r.modified = true →
+      μ (obs w' r.model) < μ (obs w m))
+    (hhonest : ∀ w m w' r, round w m = (w', .ok r) → r.modified = false →
+      obs w' r.model = obs w m)
+    (hdet : ∀ w m v n, obs w m = obs v n → ∀ w' r, round w m = (w', .ok r) →
+      ∃ v' s, round v n = (v', .ok s) ∧ s.modified = r.modified ∧ obs v' s.model = obs w' r.model) :
+    ∀ (n : Nat) (w w' : W) (m : ModelId) (acc : Bool) (r : PassResult) (fl : List Bool),
+    μ (obs w m) < n → mgrLoop round true n w m acc = (w', .ok r, fl) →
+    fl.getLast? = some false ∧
+    ∃ w'' r'', round w' r.model = (w'', .ok r'') ∧ r''.modified = false ∧
+      obs w'' r''.model = obs w' r.model
+  | 0, _, _, _, _, _, _, hn, _ => by omega
+  | n + 1, w, w', m, acc, r, fl, hn, h => by
+    simp only [mgrLoop] at h
+    split at h
+    · simp at h
+    · next w1 r1 h1 =>
+      split at h
+      · next hstop =>
+        have hm : r1.modified = false := by simpa using hstop
+        simp only [Prod.mk.injEq, Except.ok.injEq] at h
+        obtain ⟨rfl, hr, rfl⟩ := h
+        have ho := hhonest w m w1 r1 h1 hm
+        obtain ⟨v', s, hs1, hs2, hs3⟩ := hdet w m w1 r1.model ho.symm w1 r1 h1
+        subst hr
+        exact ⟨by simp [hm], v', s, hs1, hs2.trans hm, hs3⟩
+      · next hgo =>
+        have hm : r1.modified = true := by simpa using hgo
+        simp only [Prod.mk.injEq] at h
+        obtain ⟨ha, hb, hc⟩ := h
+        have hlt := hdec w m w1 r1 h1 hm
+        have ih := C14_fixpoint_obs round obs μ hdec hhonest hdet n w1 w' r1.model _ r _ (by omega)
+          (by rw [← ha, ← hb])
+        subst hc
+        refine ⟨?_, ih.2⟩
+        cases hfl : (mgrLoop round true n w1 r1.model (acc || r1.modified)).2.2 with
+        | nil => rw [hfl] at ih; simp at ih
+        | cons a l => rw [hfl] at ih; simpa [List.getLast?_cons_cons] using ih.1
+
 /-! ## counting passes: `modified = bool(count)` over a rewrite system with a measure -/
 
 theorem traverse_count {S σ : Type} (rw : σ → S → Option S) :
@@ -320,6 +488,56 @@ theorem C14_counting_rounds {S σ : Type} (sites : S → List σ) (rw : σ → S
   have := (C14_fixpoint round (fun s _ => μ s) hdec' hhon n s s' m false r fl hn h).2
   simp only [round, Prod.mk.injEq, Except.ok.injEq, PassResult.mk.injEq, true_and] at this
   exact Prod.ext this.1 this.2
+
+theorem countingLeaf_run {S σ : Type} (cl : S → ModelId → S × ModelId) (sites : S → List σ)
+    (rw : σ → S → Option S) (s : S) (m : ModelId) :
+    (Pass.leaf (countingLeaf sites rw)).run cl s m =
+      ((countingPass sites rw s).1, .ok ⟨m, (countingPass sites rw s).2⟩) := by
+  simp [Pass.run, guard, countingLeaf, noHook]
+
+theorem mgrLoop_total {W : Type} (round : W → ModelId → Res W) (es : Bool)
+    (ht : ∀ w m, ∃ w' b, round w m = (w', .ok ⟨m, b⟩)) :
+    ∀ (n : Nat) (w : W) (m : ModelId) (acc : Bool),
+    ∃ w' b fl, mgrLoop round es n w m acc = (w', .ok ⟨m, b⟩, fl)
+  | 0, w, m, acc => ⟨w, acc, [], rfl⟩
+  | n + 1, w, m, acc => by
+    obtain ⟨w1, b1, h1⟩ := ht w m
+    simp only [mgrLoop, h1]
+    split
+    · exact ⟨_, _, _, rfl⟩
+    · obtain ⟨w2, b2, fl, h2⟩ := mgrLoop_total round es ht n w1 m (acc || b1)
+      exact ⟨w2, b2, b1 :: fl, by simp [h2]⟩
+
+/-- **C14_counting_manager**: the same through the real entry point.  `PassManager([p], steps,
+    early_stop=True)(model)` for a counting pass `p` whose rewrites decrease `μ`, with
+    `steps > μ`: the call succeeds, returns the input model object, ends in a state on which `p`
+    reports `False` and changes nothing, and it reports `False` only if nothing was changed. -/
+theorem C14_counting_manager {S σ : Type} (cl : S → ModelId → S × ModelId) (sites : S → List σ)
+    (rw : σ → S → Option S) (μ : S → Nat) (hdec : ∀ x s s', rw x s = some s' → μ s' < μ s)
+    (n : Nat) (s : S) (m : ModelId) (hn : μ s < n) :
+    ∃ s' b, (Pass.mgr [.leaf (countingLeaf sites rw)] n true).run cl s m = (s', .ok ⟨m, b⟩) ∧
+      countingPass sites rw s' = (s', false) ∧ (b = false → s' = s) := by
+  have hround : (fun w m => runSeq cl [Pass.leaf (countingLeaf sites rw)] w m false) =
+      (fun s m => ((countingPass sites rw s).1, .ok ⟨m, (countingPass sites rw s).2⟩)) := by
+    funext w m
+    simp [runSeq, countingLeaf_run]
+  obtain ⟨s', b, fl, hl⟩ := mgrLoop_total
+    (fun s m => ((countingPass sites rw s).1, Except.ok ⟨m, (countingPass sites rw s).2⟩)) true
+    (fun w m => ⟨_, _, rfl⟩) n s m false
+  have hrun : (Pass.mgr [.leaf (countingLeaf sites rw)] n true).run cl s m = (s', .ok ⟨m, b⟩) := by
+    simp only [Pass.run, mgrCall]
+    rw [hround]
+    simp only [guard, noHook, hl, toCallRet]
+    simp [allInPlace, Pass.inPlace, countingLeaf]
+  refine ⟨s', b, hrun, (C14_counting_rounds sites rw μ hdec n s m).2 s' ⟨m, b⟩ fl hn hl, fun hb => ?_⟩
+  have hh : Honest cl (fun w (_ : ModelId) => w) (.leaf (countingLeaf sites rw)) := by
+    intro w m' w' r h hm
+    rw [countingLeaf_run] at h
+    simp only [Prod.mk.injEq, Except.ok.injEq] at h
+    obtain ⟨rfl, rfl⟩ := h
+    exact C14_counting_flag sites rw w hm
+  exact C14_manager_honest cl _ [.leaf (countingLeaf sites rw)] n true
+    (fun p hp => by simp at hp; subst hp; exact hh) s m s' ⟨m, b⟩ hrun hb
 
 /-! ## ClearMetadataAndDocStringPass -/
 namespace ClearMeta
@@ -635,24 +853,220 @@ theorem C14_flag_sort : ∀ (before after : List (List Nat)),
     simp only [sortFlag, List.zip_cons_cons, List.any_cons, Bool.or_eq_false_iff] at h
     rw [zip_any_ne a b hl.1 h.1, C14_flag_sort before after hl.2 h.2]
 
+/-! ## flag and measure of the passes modelled by C05 (`Model/Passes.lean`) -/
+section C05Models
+open IrVerif.Sem IrVerif.Passes IrVerif.PassFlags
+
+/-- **C14_flag_lift_const**: LiftConstantsToInitializersPass (C05's model, main graph and all
+    subgraphs) reports `modified = False` only if the model it returns is the model it was given. -/
+theorem C14_flag_lift_const (la : Bool) (lim : Nat) (m : Model) (h : liftFlag la lim m = false) :
+    liftConstModel la lim m = m := by
+  simp only [liftFlag, bne_eq_false_iff_eq] at h
+  cases m with
+  | mk g fs => simp only [liftConstModel, liftG_cnt0 la lim g h]
+
+/-- **C14_measure_lift_const**: ... and when it reports `True` the number of nodes (nested graphs
+    included) strictly decreased (hypothesis of `C14_rounds`). -/
+theorem C14_measure_lift_const (la : Bool) (lim : Nat) (m : Model) (h : liftFlag la lim m = true) :
+    nodesG (liftConstModel la lim m).graph < nodesG m.graph := by
+  have := liftG_nodes la lim m.graph
+  simp only [liftFlag, bne_iff_ne, ne_eq] at h
+  simp only [liftConstModel]; omega
+
+/-- **C14_flag_dedup**: Deduplicate(Hashed)InitializersPass (C05's model) reports `False` only if
+    the model is returned as it was. -/
+theorem C14_flag_dedup (lim : Nat) (m : Model) (h : dedupFlag lim m = false) : dedupModel lim m = m := by
+  simp only [dedupFlag, bne_eq_false_iff_eq] at h
+  cases m with
+  | mk g fs => simp only [dedupModel, dedupG_cnt0 lim g h]
+
+/-- **C14_measure_dedup**: ... and `True` means the number of initializers (nested graphs included)
+    strictly decreased. -/
+theorem C14_measure_dedup (lim : Nat) (m : Model) (h : dedupFlag lim m = true) :
+    initsG (dedupModel lim m).graph < initsG m.graph := by
+  have := dedupG_inits lim [] m.graph
+  simp only [dedupFlag, bne_iff_ne, ne_eq] at h
+  simp only [dedupModel]; omega
+
+/-- **C14_flag_dce**: RemoveUnusedNodesPass (C05's model: main graph with all nested graphs, unused
+    initializers, function bodies; count as in the Python after D38, without the schema-driven
+    optional-output removal) reports `False` only if the model is returned as it was. -/
+theorem C14_flag_dce (m : Model) (h : dceFlag m = false) : dceModel m = m := by
+  simp only [dceFlag, bne_eq_false_iff_eq, dceCount] at h
+  have h1 : dceCntG m.graph = 0 := by omega
+  have h2 : m.graph.inits.length - (dceModel m).graph.inits.length = 0 := by omega
+  have h3 : (m.funcs.map dceCntG).sum = 0 := by omega
+  have hg := dceG_cnt0 m.graph h1
+  have hf : m.funcs.map (fun f => (dceG f).1) = m.funcs := by
+    have := sum_map_zero dceCntG m.funcs h3
+    conv => rhs; rw [← List.map_id m.funcs]
+    exact List.map_congr_left (fun f hf => dceG_cnt0 f (this f hf))
+  cases m with
+  | mk g fs =>
+    simp only at hg hf h2
+    cases g with
+    | mk inputs outputs inits nodes =>
+      simp only [dceModel, hg, hf, Graph.inits, Graph.inputs, Graph.outputs, Graph.nodes] at h2 ⊢
+      have hle := List.length_filter_le (fun p : VId × Tensor =>
+        (usesG (Graph.mk inputs outputs inits nodes) ++ (dceG (Graph.mk inputs outputs inits nodes)).2).contains p.1 ||
+          outputs.contains p.1 || inputs.contains p.1) inits
+      rw [filter_eq_of_length _ inits (by omega)]
+
+/-- **C14_measure_dce**: ... and every counted rewrite lowers nodes + input slots + initializers, so
+    `True` means that measure strictly decreased. -/
+theorem C14_measure_dce (m : Model) : dceSize (dceModel m) + dceCount m ≤ dceSize m ∧
+    (dceFlag m = true → dceSize (dceModel m) < dceSize m) := by
+  have key : dceSize (dceModel m) + dceCount m ≤ dceSize m := by
+    cases m with
+    | mk g fs =>
+      cases g with
+      | mk inputs outputs inits nodes =>
+        have h1 := dceNodes_slots outputs [] nodes
+        have h2 := funcs_slots fs
+        have hle := List.length_filter_le (fun p : VId × Tensor =>
+          (usesG (Graph.mk inputs outputs inits (dceNodes outputs [] nodes).1) ++
+              (dceNodes outputs [] nodes).2).contains p.1 || outputs.contains p.1 ||
+            inputs.contains p.1) inits
+        simp only [dceSize, dceCount, dceModel, dceG, dceCntG, slotsG, Graph.inits, Graph.inputs,
+          Graph.outputs, Graph.nodes] at *
+        omega
+  refine ⟨key, fun h => ?_⟩
+  simp only [dceFlag, bne_iff_ne, ne_eq] at h
+  omega
+
+end C05Models
+
+/-! ## TopologicalSortPass on C12's model of the pass -/
+section SortPass
+open IrVerif.Sort
+
+/-- **C14_sort_flag_iff**: on C12's model of `TopologicalSortPass` (`Sort.passEffect`: sort the main
+    graph and every function, nested graphs included), when the pass returns, it reports
+    `modified = False` EXACTLY when every graph of the model - main graph, functions, every nested
+    subgraph - holds its nodes in exactly the order it held them before. -/
+theorem C14_sort_flag_iff (gs : List MGraph) (hwf : ∀ g ∈ gs, IrVerif.Sort.WF g)
+    (hok : (passEffect gs).1 = false) :
+    sortPassFlag gs = false ↔ (passEffect gs).2 = gs.map graphsOf := by
+  have harr := (passEffect_arr gs hwf hok).2
+  constructor
+  · intro h
+    exact (arr_outer_eq harr (sortFlag_eq_of_false _ _ (arr_outer_lengths harr) h)).symm
+  · intro h
+    simp only [sortPassFlag, h]
+    exact sortFlag_self _
+
+/-- **C14_sort_keeps_sorted**: a model all of whose graphs are already in topological order
+    (C12's `OrderedG` in a well-scoped tree) is left exactly as it is by the pass - ordered stays
+    ordered - the pass does not raise and reports `modified = False`; in particular the pass
+    applied to its own result is a fixpoint whenever that result is ordered. -/
+theorem C14_sort_keeps_sorted (gs : List MGraph)
+    (h : ∀ g ∈ gs, IrVerif.Sort.WF g ∧ WellScoped g ∧ ∀ k ∈ allGraphs g, OrderedG k) :
+    passEffect gs = (false, gs.map graphsOf) ∧ sortPassFlag gs = false := by
+  have he : ∀ g ∈ gs, sortEffect g = (false, graphsOf g) := by
+    intro g hg
+    obtain ⟨hwf, hws, hord⟩ := h g hg
+    have := (C12_order_independent g hwf (graphsOf g) (List.Perm.refl _)).2
+    rw [C12_fixpoint g hwf hws hord] at this
+    exact this
+  have hr := C12_pass_result gs
+  have h1 : (passEffect gs).1 = false := by
+    rw [hr.1, List.any_eq_false]
+    intro g hg
+    simp [he g hg]
+  have h2 : (passEffect gs).2 = gs.map graphsOf := by
+    rw [hr.2 h1]
+    exact List.map_congr_left (fun g hg => by rw [he g hg])
+  exact ⟨Prod.ext h1 h2, (C14_sort_flag_iff gs (fun g hg => (h g hg).1) h1).2 h2⟩
+
+end SortPass
+
 /-! ## call_onnx_api -/
 namespace CApi
 
+/-- `g'` is `g` except that tensors of initializers of `g` may have been given the name of their
+    value (the documented side effect of serialization, serde.py `value.const_value.name = value.name`) -/
+def SameUpToTensorNames (g g' : G) : Prop :=
+  g'.val = g.val ∧ g'.inits = g.inits ∧ g'.inputs = g.inputs ∧
+  ∀ j, g'.tname j = g.tname j ∨
+    ∃ p ∈ g.inits, ∃ t, (g.val p.2).const = some t ∧ t.id = j ∧ g'.tname j = p.1
+
+theorem Frame.of_val {ids : List Nat} {g g' g'' : G} (h : Frame ids g g') (hv : g''.val = g'.val) :
+    Frame ids g g'' := by
+  intro j; rw [hv]; exact h j
+
 /-- **C14_c_api_restore**: for EVERY outcome of the strip loop (any primitive step may raise, before
-    or after taking effect), of the serialization and of the wrapped call, the graph after
-    `call_onnx_api` equals the graph before: the value store (tensors, shapes, types of every
-    value), the initializer mapping (keys and order) and the input list. -/
-theorem C14_c_api_restore {P R : Type} (f : Option Fault) (ser : G → Option P)
-    (func : P → Option R) (g : G) (hwf : WF g) : (callOnnxApi f ser func g).1 = g := by
+    or after taking effect), of the serialization (however far it got) and of the wrapped call, the
+    graph after `call_onnx_api` equals the graph before: the value store (tensor object, shape, type
+    of every value), the initializer mapping (keys and order) and the input list.  The only thing
+    that may differ is the `name` of tensors that are initializers of the graph, which serialization
+    aligns with the value name. -/
+theorem C14_c_api_restore {P R : Type} (f : Option Fault) (reach : G → Nat) (ser : G → Option P)
+    (func : P → Option R) (g : G) (hwf : WF g) :
+    SameUpToTensorNames g (callOnnxApi f reach ser func g).1 := by
+  have hF := Frame.strip f (g.inits.map (·.2)) ⟨g, 0, false, []⟩ (fun _ hi => hi) (Frame.refl _ g)
+  have hK := Keep.strip f (g.inits.map (·.2)) ⟨g, 0, false, []⟩ (Keep.refl g)
   simp only [callOnnxApi]
-  exact restore_of_frame hwf
-    (Frame.strip f _ ⟨g, 0, false, []⟩ (fun _ hi => hi) (Frame.refl _ g))
+  split
+  · -- an exception left the strip loop: serialization was never reached
+    rw [restore_of_frame hwf hF]
+    exact ⟨rfl, rfl, rfl, fun j => Or.inl (by rw [hK.tname])⟩
+  · have hR := renamePrefix_spec
+      (reach (strip f (g.inits.map (·.2)) ⟨g, 0, false, []⟩).g)
+      (strip f (g.inits.map (·.2)) ⟨g, 0, false, []⟩).g.inits
+      (strip f (g.inits.map (·.2)) ⟨g, 0, false, []⟩).g
+    rw [restore_of_frame hwf (Frame.of_val hF hR.1)]
+    refine ⟨rfl, rfl, rfl, fun j => ?_⟩
+    rcases hR.2.2.2 j with h | ⟨p, hp, t, h1, h2, h3⟩
+    · left; show _ = g.tname j; rw [h, hK.tname]
+    · right
+      have hp' := hK.inits p hp
+      refine ⟨p, hp', t, hK.const _ _ h1, h2, ?_⟩
+      show (renamePrefix _ _ _).tname j = p.1
+      rw [h3, (hF p.2).1, hwf.named p hp']
+
+/-- **C14_c_api_restore_exact**: when serialization is not reached or touches no tensor (it is
+    replaced by something that raises at once, or the strip loop raised) the graph is EXACTLY as
+    before. -/
+theorem C14_c_api_restore_exact {P R : Type} (f : Option Fault) (ser : G → Option P)
+    (func : P → Option R) (g : G) (hwf : WF g) :
+    (callOnnxApi f (fun _ => 0) ser func g).1 = g := by
+  have hF := Frame.strip f (g.inits.map (·.2)) ⟨g, 0, false, []⟩ (fun _ hi => hi) (Frame.refl _ g)
+  have hK := Keep.strip f (g.inits.map (·.2)) ⟨g, 0, false, []⟩ (Keep.refl g)
+  simp only [callOnnxApi, renamePrefix, ite_self]
+  rw [restore_of_frame hwf hF, hK.tname]
+
+theorem SameUpToTensorNames.wf {g g' : G} (h : SameUpToTensorNames g g') (hwf : WF g) : WF g' :=
+  ⟨by rw [h.2.1]; exact hwf.nodup, by rw [h.1, h.2.1]; exact hwf.named⟩
+
+/-- one call of a fault sequence: where the strip loop raises (if it does), how far the
+    serialization gets, whether it and the wrapped call succeed -/
+structure Call (P R : Type) where
+  fault : Option Fault
+  reach : G → Nat
+  ser : G → Option P
+  func : P → Option R
+
+def runCalls {P R : Type} (cs : List (Call P R)) (g : G) : G :=
+  cs.foldl (fun g c => (callOnnxApi c.fault c.reach c.ser c.func g).1) g
+
+/-- **C14_c_api_restore_seq**: the same for every SEQUENCE of calls on the same model, each with its
+    own fault position and its own outcomes: values, tensors, shapes, types, initializer keys and
+    order and inputs are as before the first call. -/
+theorem C14_c_api_restore_seq {P R : Type} : ∀ (cs : List (Call P R)) (g : G), WF g →
+    (runCalls cs g).val = g.val ∧ (runCalls cs g).inits = g.inits ∧ (runCalls cs g).inputs = g.inputs
+  | [], _, _ => ⟨rfl, rfl, rfl⟩
+  | c :: cs, g, hwf => by
+    have h1 := C14_c_api_restore c.fault c.reach c.ser c.func g hwf
+    have ih := C14_c_api_restore_seq cs _ (h1.wf hwf)
+    simp only [runCalls, List.foldl_cons] at ih ⊢
+    exact ⟨ih.1.trans h1.1, ih.2.1.trans h1.2.1, ih.2.2.trans h1.2.2.1⟩
 
 /-- **C14_c_api_no_fault_outcome**: when no step of the strip loop raises, the call raises exactly
     when the serialization or the wrapped call raises, and otherwise returns the wrapped call's
     result on the serialization of the stripped graph. -/
-theorem C14_c_api_no_fault_outcome {P R : Type} (ser : G → Option P) (func : P → Option R) (g : G) :
-    (callOnnxApi none ser func g).2 =
+theorem C14_c_api_no_fault_outcome {P R : Type} (reach : G → Nat) (ser : G → Option P)
+    (func : P → Option R) (g : G) :
+    (callOnnxApi none reach ser func g).2 =
       match ser (strip none (g.inits.map (·.2)) ⟨g, 0, false, []⟩).g with
       | none => .raised
       | some proto => match func proto with
@@ -663,28 +1077,107 @@ theorem C14_c_api_no_fault_outcome {P R : Type} (ser : G → Option P) (func : P
   | none => rfl
   | some p => cases func p <;> rfl
 
-/-- **C14_checker_unchanged**: `CheckerPass.call` leaves the graph as it was on every path, and
-    when it returns it returns the input model with `modified = False`. -/
-theorem C14_checker_unchanged {P : Type} (f : Option Fault) (ser : G → Option P)
+/-- **C14_checker_unchanged**: `CheckerPass.call` leaves the graph as it was on every path (up to
+    the tensor names aligned by serialization), and when it returns it returns the input model
+    with `modified = False`. -/
+theorem C14_checker_unchanged {P : Type} (f : Option Fault) (reach : G → Nat) (ser : G → Option P)
     (check : P → Option Unit) (g : G) (m : ModelId) (hwf : WF g) :
-    (checkerCall f ser check g m).1 = g ∧
-    ((checkerCall f ser check g m).2 = .result ⟨m, false⟩ ∨
-     (checkerCall f ser check g m).2 = .raised .other) := by
-  have := C14_c_api_restore f ser check g hwf
+    SameUpToTensorNames g (checkerCall f reach ser check g m).1 ∧
+    ((checkerCall f reach ser check g m).2 = .result ⟨m, false⟩ ∨
+     (checkerCall f reach ser check g m).2 = .raised .other) := by
+  have := C14_c_api_restore f reach ser check g hwf
   unfold checkerCall
   split <;> simp_all
 
 /-- **C14_shape_inference_failure_unchanged**: when anything fails inside `call_onnx_api`,
     `ShapeInferencePass.call` returns `(model, False)` and the graph is as it was. -/
-theorem C14_shape_inference_failure_unchanged {P : Type} (f : Option Fault) (ser : G → Option P)
-    (infer : P → Option P) (merge : G → P → G × Bool) (g : G) (m : ModelId) (hwf : WF g)
-    (hfail : (callOnnxApi f ser infer g).2 = .raised) :
-    shapeInferenceCall f ser infer merge g m = (g, .result ⟨m, false⟩) := by
-  have := C14_c_api_restore f ser infer g hwf
+theorem C14_shape_inference_failure_unchanged {P Q : Type} (f : Option Fault) (reach : G → Nat)
+    (ser : G → Option P) (infer : P → Option P) (deser : P → Option Q) (merge : G → Q → G × Bool)
+    (g : G) (m : ModelId) (hwf : WF g) (hfail : (callOnnxApi f reach ser infer g).2 = .raised) :
+    SameUpToTensorNames g (shapeInferenceCall f reach ser infer deser merge g m).1 ∧
+    (shapeInferenceCall f reach ser infer deser merge g m).2 = .result ⟨m, false⟩ := by
+  have := C14_c_api_restore f reach ser infer g hwf
   unfold shapeInferenceCall
   split
   · simp_all
   · simp_all
+
+/-- **C14_shape_inference_raise_unchanged**: the pass itself raises only when the inferred proto
+    cannot be deserialized for the merge; nothing has been written then. -/
+theorem C14_shape_inference_raise_unchanged {P Q : Type} (f : Option Fault) (reach : G → Nat)
+    (ser : G → Option P) (infer : P → Option P) (deser : P → Option Q) (merge : G → Q → G × Bool)
+    (g : G) (m : ModelId) (hwf : WF g) (e : Exc)
+    (hr : (shapeInferenceCall f reach ser infer deser merge g m).2 = .raised e) :
+    SameUpToTensorNames g (shapeInferenceCall f reach ser infer deser merge g m).1 ∧
+    ∃ p, (callOnnxApi f reach ser infer g).2 = .ok p ∧ deser p = none := by
+  have := C14_c_api_restore f reach ser infer g hwf
+  unfold shapeInferenceCall at hr ⊢
+  split at hr
+  · simp at hr
+  · next g' p hc =>
+    split at hr
+    · next hd =>
+      simp only [hc, hd]
+      rw [hc] at this
+      exact ⟨this, p, rfl, hd⟩
+    · simp at hr
+
+theorem mergeShape_flag (sh : Option Nat) (st : G × Bool) (i : Nat) :
+    (mergeShape sh st i).2 = false → st.2 = false ∧ (mergeShape sh st i).1 = st.1 := by
+  unfold mergeShape; split <;> simp_all
+
+theorem mergeType_flag (dt : Option Nat) (st : G × Bool) (i : Nat) :
+    (mergeType dt st i).2 = false → st.2 = false ∧ (mergeType dt st i).1 = st.1 := by
+  unfold mergeType; split <;> simp_all
+
+theorem mergeOne_flag (inf : Inferred) (st : G × Bool) (i : Nat) :
+    (mergeOne inf st i).2 = false → st.2 = false ∧ (mergeOne inf st i).1 = st.1 := by
+  unfold mergeOne
+  split
+  · exact fun h => ⟨h, rfl⟩
+  · intro h
+    have h2 := mergeType_flag _ _ i h
+    have h1 := mergeShape_flag _ st i h2.1
+    exact ⟨h1.1, h2.2.trans h1.2⟩
+
+theorem mergeVals_flag (inf : Inferred) : ∀ (ids : List Nat) (st : G × Bool),
+    ((ids.foldl (mergeOne inf) st).2 = false → st.2 = false ∧ (ids.foldl (mergeOne inf) st).1 = st.1)
+  | [], st => fun h => ⟨h, rfl⟩
+  | i :: ids, st => by
+    intro h
+    simp only [List.foldl_cons] at h ⊢
+    have ih := mergeVals_flag inf ids (mergeOne inf st i) h
+    have h1 := mergeOne_flag inf st i ih.1
+    exact ⟨h1.1, ih.2.trans h1.2⟩
+
+/-- **C14_shape_merge_flag**: `_merge_func` reports `False` only if it wrote nothing: the graph it
+    returns is the graph it was given. -/
+theorem C14_shape_merge_flag (ids : List Nat) (g : G) (inf : Inferred)
+    (h : (mergeVals ids g inf).2 = false) : (mergeVals ids g inf).1 = g :=
+  (mergeVals_flag inf ids (g, false) h).2
+
+/-- **C14_shape_inference_flag**: whatever happens inside (faults, serialization, inference,
+    deserialization), when `ShapeInferencePass.call` with the transcribed merge returns
+    `modified = False` the graph is as it was (up to the tensor names aligned by serialization). -/
+theorem C14_shape_inference_flag {P : Type} (f : Option Fault) (reach : G → Nat)
+    (ser : G → Option P) (infer : P → Option P) (deser : P → Option Inferred) (ids : List Nat)
+    (g : G) (m : ModelId) (hwf : WF g) (r : PassResult)
+    (hr : (shapeInferenceCall f reach ser infer deser (mergeVals ids) g m).2 = .result r)
+    (hm : r.modified = false) :
+    SameUpToTensorNames g (shapeInferenceCall f reach ser infer deser (mergeVals ids) g m).1 := by
+  have := C14_c_api_restore f reach ser infer g hwf
+  unfold shapeInferenceCall at hr ⊢
+  split at hr
+  · next g' hc => simp only [hc]; rw [hc] at this; exact this
+  · next g' p hc =>
+    split at hr
+    · simp at hr
+    · next q hd =>
+      simp only [CallRet.result.injEq] at hr
+      subst hr
+      simp only at hm
+      simp only [hc, hd, C14_shape_merge_flag ids g' q hm]
+      rw [hc] at this; exact this
 
 end CApi
 
@@ -750,7 +1243,7 @@ def exG : G :=
     | 2 => ⟨"small", some ⟨8, 8, 3, 1, false⟩, none, none⟩
     | 3 => ⟨"nodata", none, some 3, some 1⟩
     | _ => ⟨"", none, none, none⟩,
-   [("big", 1), ("small", 2), ("nodata", 3)], [0]⟩
+   [("big", 1), ("small", 2), ("nodata", 3)], [0], fun j => if j = 8 then "original_tensor_name" else "t"⟩
 
 -- WF is satisfiable, and on this graph the strip loop really changes everything the theorem talks about
 example : WF exG := ⟨by decide, by decide⟩
@@ -761,14 +1254,71 @@ example : let s := strip none (exG.inits.map (·.2)) ⟨exG, 0, false, []⟩
 example : let s := strip (some ⟨3, true⟩) (exG.inits.map (·.2)) ⟨exG, 0, false, []⟩
     s.raised = true ∧ s.g.inits = exG.inits ∧ (s.g.val 1).const = none ∧ s.g.inputs = [0, 1] := by decide
 -- ... and all three failure kinds occur
-example : (callOnnxApi (P := ProtoView) (R := Unit) (some ⟨3, true⟩) serView (fun _ => some ()) exG).2
+example : (callOnnxApi (P := ProtoView) (R := Unit) (some ⟨3, true⟩) serReach serView (fun _ => some ()) exG).2
     matches .raised := by decide
-example : (callOnnxApi (P := ProtoView) (R := Unit) none (fun _ => none) (fun _ => some ()) exG).2
+example : (callOnnxApi (P := ProtoView) (R := Unit) none serReach (fun _ => none) (fun _ => some ()) exG).2
     matches .raised := by decide
-example : (callOnnxApi (P := ProtoView) (R := Unit) none serView (fun _ => none) exG).2
+example : (callOnnxApi (P := ProtoView) (R := Unit) none serReach serView (fun _ => none) exG).2
     matches .raised := by decide
-example : (callOnnxApi (P := ProtoView) (R := Unit) none serView (fun _ => some ()) exG).2
+example : (callOnnxApi (P := ProtoView) (R := Unit) none serReach serView (fun _ => some ()) exG).2
     matches .ok () := by decide
+-- the one permitted difference really occurs: the tensor of `small` (still an initializer when the
+-- proto is written) comes back named after its value; the stripped tensor of `big` keeps its name
+example : let g' := (callOnnxApi (P := ProtoView) (R := Unit) none serReach serView (fun _ => some ()) exG).1
+    g'.tname 8 = "small" ∧ exG.tname 8 = "original_tensor_name" ∧ g'.tname 7 = "t" := by decide
+-- ShapeInference: the three exits (swallowed failure, raising deserialization, merge) all occur, and the
+-- merge writes (flag True) or does not (flag False)
+example : (shapeInferenceCall (P := ProtoView) (Q := Inferred) none serReach serView (fun _ => none)
+    (fun _ => some []) (mergeVals [1, 2]) exG 0).2 matches .result ⟨0, false⟩ := by decide
+example : (shapeInferenceCall (P := ProtoView) (Q := Inferred) none serReach serView some
+    (fun _ => none) (mergeVals [1, 2]) exG 0).2 matches .raised .other := by decide
+example : (shapeInferenceCall (P := ProtoView) (Q := Inferred) none serReach serView some
+    (fun _ => some [("small", some 3, some 1)]) (mergeVals [1, 2]) exG 0).2 matches .result ⟨0, true⟩ := by
+  decide
+example : (shapeInferenceCall (P := ProtoView) (Q := Inferred) none serReach serView some
+    (fun _ => some [("x", some 1, some 1), ("other", some 9, none)]) (mergeVals [0, 1, 2]) exG 0).2
+    matches .result ⟨0, false⟩ := by decide
+-- a sequence of three calls with different faults
+example : (runCalls (P := ProtoView) (R := Unit)
+    [⟨some ⟨3, true⟩, serReach, serView, fun _ => some ()⟩, ⟨none, serReach, fun _ => none, fun _ => some ()⟩,
+     ⟨some ⟨0, false⟩, serReach, serView, fun _ => none⟩] exG).inits = exG.inits := by decide
+
+-- manager without early stop runs exactly `steps` rounds; AddInitializersToInputs fires and is then a no-op
+example : (mgrLoop exRound false 5 2 0 false).2.2 = [true, true, false, false, false] := by decide
+example : InitInputs.addInitializersToInputs [⟨[1, 2], [2, 5]⟩] = ([⟨[1, 2, 5], [2, 5]⟩], true) ∧
+    (InitInputs.addInitializersToInputs [⟨[1, 2, 5], [2, 5]⟩]).2 = false := by decide
+
+-- honesty: the hypothesis of the composition theorems holds for a counting leaf (proved inside
+-- C14_counting_manager) and fails for a leaf that lies
+example : ¬ Honest (fun (w : Nat) m => (w, m + 100)) (fun (w : Nat) (_ : ModelId) => w)
+    (.leaf ⟨true, noHook, fun w m => (w + 1, .result ⟨m, false⟩), noHook⟩) := by
+  intro h
+  have := h 0 0 1 ⟨0, false⟩ (by rfl) rfl
+  simp at this
+
+-- C05's models: each flag takes both values, and the measures really drop
+section
+open IrVerif.Sem IrVerif.Passes IrVerif.PassFlags
+def exT : Sem.Tensor := ⟨1, [2], [0, 0, 128, 63, 0, 0, 128, 63], []⟩
+/-- x0 input; w1, w2 equal initializers; n: y3 = Add(x0, w1, none-trailing); dead: y4 = Neg(w2) -/
+def exM : Model :=
+  ⟨.mk [0] [3] [(1, exT), (2, exT)]
+    [.mk ⟨"", "Add", ""⟩ [] [some 0, some 1, none] [3] [], .mk ⟨"", "Neg", ""⟩ [] [some 2] [4] []], []⟩
+example : dceFlag exM = true ∧ dceCount exM = 3 ∧ dceSize (dceModel exM) + 3 ≤ dceSize exM ∧
+    dceFlag (dceModel exM) = false := by decide
+example : dedupFlag 1024 exM = true ∧ dedupFlag 1024 (dedupModel 1024 exM) = false ∧
+    initsG (dedupModel 1024 exM).graph + 1 = initsG exM.graph := by decide +kernel
+end
+
+-- sort pass on C12's model: a reordered nested graph is seen, an ordered model is a fixpoint
+section
+open IrVerif.Sort
+/-- main graph 0: node 1 = If with body graph 1 = [node 3 (uses node 2), node 2] -/
+def exSortBad : MGraph := (0, [.mk 1 [] [(1, [.mk 3 [some 2] [], .mk 2 [] []])]])
+def exSortGood : MGraph := (0, [.mk 1 [] [(1, [.mk 2 [] [], .mk 3 [some 2] []])]])
+example : sortPassFlag [exSortBad] = true ∧ (passEffect [exSortBad]).1 = false := by decide
+example : sortPassFlag [exSortGood] = false := by decide
+end
 
 end NonVacuity
 
